@@ -70,7 +70,7 @@ def order_of(cfg):
 
 def write_cfg(ctx, name, profile):
     p = ctx.path(name)
-    open(p, "w").write(f'SPECIFICATION Spec\nCONSTANT Profile = "{profile}"\nINVARIANT Export\n')
+    open(p, "w").write(f'SPECIFICATION Spec\nCONSTANT Profile = "{profile}"\nINVARIANT Consistent\nINVARIANT Export\n')
     return p
 
 
